@@ -69,6 +69,10 @@ def _scaled(T, pi):
 TINY = 2.0 ** -40
 
 
+SLOW6 = [[0, 102, 0, 0, 0, 0], [0, 663, 758, 711, 315, 0], [0, 964, 67, 529, 0, 2], [831, 0, 0, 0, 658, 0],
+         [0, 0, 21, 0, 0, 0], [0, 420, 0, 0, 1862, 0]]
+
+
 def run_impl(impl, Cf, cap, events):
     """Run one implementation on float matrix Cf; append events.  impl "py@tiny" / "c@tiny": the same counts
     multiplied by 2^-40 (exact in floating point) -- the estimator is invariant under a common scaling of the
@@ -213,6 +217,8 @@ def run(ctx):
         mats = enumerate_inputs(ctx, [dict(N=2, MaxC=4), dict(N=3, MaxC=2)])
     args = [(C, 1, 0) for C in mats]
     args += [(C, 1, cap) for C in mats[::7] for cap in (1, 2)]
+    # caps in the hundreds (beyond any small-number special case of the cap test) on a matrix that needs ~3000 sweeps
+    args += [(SLOW6, 1, cap) for cap in (300, 1000)]
     # real-valued (k/2) and strongly asymmetric counts
     extra = 300 if ctx.tier == "quick" else 4000
     for _ in range(extra):
